@@ -235,6 +235,10 @@ func (e *Exec) step(fr *frame, instr ssa.Instruction, reach Term, st *State) Ter
 	case *ssa.TypeAssert, *ssa.MakeClosure, *ssa.MakeMap, *ssa.MapUpdate, *ssa.Lookup,
 		*ssa.Go, *ssa.Select, *ssa.Send, *ssa.MakeChan:
 		reach = e.exotic(fr, instr, reach, st)
+		if _, ok := instr.(*ssa.MakeMap); ok {
+			// ghost updates anchored "makemap": a fresh map was made here
+			e.plainAnchors(fr, st, "makemap", nil)
+		}
 		if lk, ok := instr.(*ssa.Lookup); ok && lk.CommaOk {
 			// ghost updates anchored "lookup": result0 is the value, result1 the ok flag of a
 			// `v, ok := m[k]` (the map itself is not modelled: both are arbitrary)
